@@ -64,6 +64,28 @@ class Suspend:
         yield self.tag
 
 
+class HEvent:
+    """hand-driven stand-in for an `asyncio.Event` attribute of the connection (none exists in the unchanged
+    tree; a candidate repair that gates senders with an Event can be explored with the same machinery)"""
+
+    def __init__(self):
+        self._v = True
+
+    def set(self):
+        self._v = True
+
+    def clear(self):
+        self._v = False
+
+    def is_set(self):
+        return self._v
+
+    async def wait(self):
+        while not self._v:
+            await Suspend("event")
+        return True
+
+
 class CWriter:
     """fake StreamWriter: write() records the frame; drain() suspends – under back-pressure (`paused`) in
     the FIFO of drain waiters (woken by resume(), run in arrival order), otherwise once"""
@@ -164,6 +186,8 @@ class Machine(S.Impl):
 
         self.conn.__class__ = CConn
         self.Conn = CConn
+        import asyncio as _aio
+        self.events = [k for k, v in vars(self.conn).items() if isinstance(v, _aio.Event)]
         self.clog = CLog(self)
         self.conn.log = self.clog
         self.cwriter = CWriter(self)
@@ -260,6 +284,8 @@ class Machine(S.Impl):
         i = int(letter[1:])
         if i >= len(self.status) or self.status[i] == "fin":
             return False
+        if self.status[i] == "event" and not all(getattr(self.conn, k).is_set() for k in self.events):
+            return False
         return (not self.queued(i)) or (w.waiters[0][0] == i and w.waiters[0][1])
 
     def letters(self):
@@ -297,6 +323,8 @@ class Machine(S.Impl):
     def load(self, a):
         super().load(a)
         self.owner = []
+        for k in self.events:
+            setattr(self.conn, k, HEvent())
 
     def record(self, n0):
         toks = self.effects()
